@@ -116,7 +116,7 @@ EXPORT errno_t _wcsncpy_s_chk(wchar_t *restrict dest, rsize_t dmax,
     }
     CHK_SRCW_NULL_CLEAR("wcsncpy_s", src)
     if (unlikely(slen > RSIZE_MAX_WSTR)) {
-        handle_werror(dest, wcslen(dest), "wcsncpy_s: slen exceeds max",
+        handle_werror(dest, wcsnlen_s(dest, dmax), "wcsncpy_s: slen exceeds max",
                       ESLEMAX);
         return RCNEGATE(ESLEMAX);
     }
